@@ -192,6 +192,10 @@ inductive Step where
   | nsRead (n : Nat)
   /-- a memoised method called with key `k` -/
   | memoCall (k : Nat)
+  /-- a value that depends on call-local data — the decoded `fixed` literal under the EFFECTIVE type of the
+      instance (elements.py:786-787: `xsd_type.text_decode(self.fixed)`, `xsd_type` may come from xsi:type or an
+      alternative) — is recomputed at every use and stored nowhere: `v` is what this instance computes for key `k` -/
+  | localValue (k : Nat) (v : Nat)
   /-- `text_decode(text)` without a context: the scratch context is cleared, used, left dirty -/
   | scratchUse (dirt : List Nat)
   deriving Repr, Inhabited, DecidableEq
@@ -273,6 +277,7 @@ def step (sch : Sch) (m : Mode) (s : Res × Ctx) : Step → (Res × Ctx) × Opti
     match s.1.memo.lookup k with
     | some v => (s, some (.memo v))
     | none => (({ s.1 with memo := (k, sch.pure k) :: s.1.memo }, s.2), some (.memo (sch.pure k)))
+  | .localValue _ v => (s, some (.memo v))
   | .scratchUse dirt => (({ s.1 with scratch := dirt }, s.2), some (.scratch []))
 
 /-- the steps of the (possibly aborted) walk over one document, from a given state -/
